@@ -256,16 +256,19 @@ def markItems (cfg : Cfg) (s : Sess) : List Nat → Sess
     let o := s.c cid
     markItems cfg (setC s cid { o with rbits := fun x => o.rbits x || (x == refAttr && !cfg.volatile refAttr) }) rest
 
+/-- the WHERE clause of the optimistic UPDATE (pk and every READ attribute = `_dbvals_`) matches the committed row -/
+def optimisticOk (cfg : Cfg) (o : CObj) (db : Db) (cid : Nat) : Bool :=
+  match db.find? (fun r => r.1 == cid) with
+  | none => false
+  | some row => cfg.attrs.all (fun a => !o.rbits a || o.dbvals a == some (rowVal row a))
+
 /-- [Entity._save_updated_] + [Entity._update_dbvals_] for one modified instance: UPDATE ... WHERE pk AND every READ
     attribute still has the value in `_dbvals_` (rowcount 0 -> OptimisticCheckError); then
     `_rbits_ |= _wbits_ & _all_bits_except_volatile_; _wbits_ = 0`, `_dbvals_` of the written attributes := the written
     values, volatile attributes are dropped from `_vals_`/`_dbvals_` -/
 def saveUpdated (cfg : Cfg) (s : Sess) (db : Db) (cid : Nat) : Sess × Option Err :=
   let o := s.c cid
-  let ok := match db.find? (fun r => r.1 == cid) with
-    | none => false
-    | some row => cfg.attrs.all (fun a => !o.rbits a || o.dbvals a == some (rowVal row a))
-  if !ok then (s, some .optimistic)
+  if !optimisticOk cfg o db cid then (s, some .optimistic)
   else
     (setC s cid { o with
         rbits := fun a => o.rbits a || o.wmask a,
